@@ -4,7 +4,7 @@ CONSTANTS
   MaxD = 3
   Fams = {"threshold", "unanimity", "cnf"}
   CountD = 2
-  DealD = 2
+  DealD = 0
   Eta = 0
 INIT Init
 NEXT Next
